@@ -278,8 +278,23 @@ def hash_entries():
     return E
 
 
+def gen_entries():
+    """C01/C05: seeded generated programs with reference semantics (gen.py)."""
+    import os
+    import gen
+    seed = int(os.environ.get("VERIF_SEED", "0"))
+    n = int(os.environ.get("VERIF_GEN_PROGRAMS", "10"))
+    out = []
+    for k in range(n):
+        items, entries = gen.make_program(seed * 1000 + k)
+        entries[0].items = items
+        out += entries
+    return out
+
+
 EXTRA_FAMILIES = {
     "bounded": bounded_entries, "plumb": plumbing_entries, "gas": gas_entries,
-    "hash": hash_entries,
+    "hash": hash_entries, "gen": gen_entries,
 }
-EXTRA_HEADERS = {"bounded": BI_HEADER, "plumb": PLUMB_HEADER, "gas": GAS_HEADER, "hash": HASH_HEADER}
+import gen as _gen
+EXTRA_HEADERS = {"gen": _gen.PRELUDE, "bounded": BI_HEADER, "plumb": PLUMB_HEADER, "gas": GAS_HEADER, "hash": HASH_HEADER}
